@@ -31,7 +31,7 @@ def field_path_from(n, rec):
 MEMFILL = ("memset", "__builtin_memset", "memcpy", "__builtin_memcpy", "memmove", "__builtin_memmove")
 
 
-def written_paths(f, rec, addr_calls=True):
+def written_paths(f, rec, addr_calls=True, prog=None):
     """{path: [(b, i, line)]} of field paths of `rec` written in f: assignments, ++/--,
     memset/memcpy destinations, and (addr_calls) &field handed to a callee."""
     out = {}
@@ -52,7 +52,13 @@ def written_paths(f, rec, addr_calls=True):
                 if x.get("c") in MEMFILL and args:
                     add(field_path_from(args[0], rec), b, i, x.get("l"))
                 elif addr_calls:
-                    for a in args:
+                    callee = None
+                    if prog is not None and x.get("c") and prog.functions.get(x["c"]):
+                        callee = prog.functions[x["c"]][0]
+                    for ai, a in enumerate(args):
+                        if callee is not None and ai < len(callee.params) and \
+                                callee.params[ai]["t"].lstrip().startswith("const "):
+                            continue     # pointer-to-const parameter: the callee only reads
                         a = strip_casts(a)
                         if a is not None and a.get("k") == "un" and a.get("op") == "&":
                             add(field_path_from(a["e"], rec), b, i, x.get("l"))
